@@ -25,6 +25,7 @@ type Profile struct {
 	IneligibleProb     float64
 	MultiNLRIProb      float64
 	RichAttrProb       float64
+	LongPathProb       float64 // AS_SEQUENCE filled up to the 255-ASN segment limit (or just below)
 	MixedUpdateProb    float64 // an announcing UPDATE also withdraws routes
 	CheckpointEvery    int
 	TailUS             int64
@@ -285,6 +286,12 @@ func (g *gen) genAttrs(pi int) *AttrSpec {
 	}
 	for i := r.Intn(3); i > 0; i-- {
 		asns = append(asns, uint32(100+r.Intn(50)))
+	}
+	if g.prof.LongPathProb > 0 && r.Chance(g.prof.LongPathProb) {
+		// a segment at or right below the size limit: whoever prepends next must open a new one
+		for n := pick(r, []int{253, 254, 254, 254}); len(asns) < n; {
+			asns = append(asns, uint32(100+r.Intn(50)))
+		}
 	}
 	asns = append(asns, g.tag())
 	a.ASPath = []Segment{{Type: 2, ASNs: asns}}
